@@ -108,6 +108,13 @@ def gen_table(rng, word_only=False, seg=False, maxrows=14):
         chroms.append(c[3:] if c.lower().startswith('chr') and len(c) > 3 else 'chr' + c)
         if chroms[-1] in NA_TOKENS:
             chroms.pop()
+    if seg and rng.random() < 0.2:
+        # a genome whose chromosomes are all plain integers, some above 22 (cattle 1..29, chicken 1..28, ...):
+        # SEG files of such genomes carry the names as they are (no X/Y/M re-coding of 23/24/25)
+        chroms = [str(x) for x in rng.sample(range(1, 30), nchrom)]
+        if rng.random() < 0.7:
+            chroms[rng.randrange(len(chroms))] = str(rng.choice([23, 24, 25]))
+        chroms = list(dict.fromkeys(chroms))
     if seg:
         cols = ['gene', 'log2'] + (['probes'] if rng.random() < 0.6 else [])
     else:
